@@ -295,6 +295,61 @@ func runC04(o Opts) error {
 			s.Add(term, map[string]any{"op": oc.Name, "opcoq": oc.Coq, "cfgcoq": cfg.coq(), "script": sc.coq(), "result": res}, "api/"+oc.Name, true)
 		}
 	}
+	// 2b. every reply-bearing operation on its VALUE path (echoed card / profile ids as requested, non-zero indices) with
+	// exactly one field replaced by an out-of-domain pattern of its type, and with pairs of adjacent fields so replaced
+	oneBad := 0
+	for round := 0; round < map[bool]int{false: 2, true: 20}[thorough]; round++ {
+		for w := 0; w < nOps; w++ {
+			id := genID(r)
+			oc := genOp(r, w, id, false)
+			if oc.Resp == "" {
+				continue
+			}
+			set := map[string]uint64{}
+			var a, b uint64
+			switch oc.Name {
+			case "GetCardByID":
+				fmt.Sscanf(oc.Coq, "GetCardByID %d %d", &a, &b)
+				set["CardNumber"] = b
+			case "GetTimeProfile":
+				fmt.Sscanf(oc.Coq, "GetTimeProfile %d %d", &a, &b)
+				set["ProfileID"] = b
+			}
+			base := genReply(r, oc.Resp, id, 0, set)
+			fields := replyFields(oc.Resp)
+			try := func(reply []byte, what string) {
+				cl := newClient(Cfg{})
+				sc := Script{Kind: "datagrams", Datagrams: [][]byte{reply}}
+				cl.f.script = sc
+				res := safeCall(func() string { return oc.Run(cl.u) })
+				oneBad++
+				if res == "RPanic" {
+					s.Fail(map[string]any{"op": oc.Name, "opcoq": oc.Coq, "cfgcoq": Cfg{}.coq(), "script": sc.coq(), "what": what}, "API call (or rendering its result) panicked on a reply with "+what)
+					s.Add("C4Api (CApi "+Cfg{}.coq()+" ("+oc.Coq+") "+sc.coq()+" "+res+" "+callsCoq(cl.f.calls)+")",
+						map[string]any{"op": oc.Name, "opcoq": oc.Coq, "cfgcoq": Cfg{}.coq(), "script": sc.coq(), "result": res}, "api-one-bad-field/"+oc.Name, true)
+				}
+			}
+			for i, f := range fields {
+				if f.Off < 8 {
+					continue
+				}
+				for _, p := range badPatterns(f.Text, f.Width) {
+					m := append([]byte{}, base...)
+					copy(m[f.Off:], p)
+					try(m, "field "+f.Name+" out of its domain")
+					if i+1 < len(fields) {
+						g := fields[i+1]
+						for _, q := range badPatterns(g.Text, g.Width) {
+							m2 := append([]byte{}, m...)
+							copy(m2[g.Off:], q)
+							try(m2, "fields "+f.Name+" and "+g.Name+" out of their domains")
+						}
+					}
+				}
+			}
+		}
+	}
+	s.Extra["api_calls_one_field_out_of_domain"] = oneBad
 	s.Extra["api_calls_with_recover"] = apiCalls
 
 	// 3. the event listener's handler
@@ -330,4 +385,29 @@ func runC04(o Opts) error {
 	}
 	s.Extra["listener_datagrams_with_recover"] = delivered
 	return s.Close()
+}
+
+// byte patterns outside the domain of a reply field of the given Go type
+func badPatterns(text string, width int) [][]byte {
+	switch text {
+	case "bool":
+		return [][]byte{{2}, {0xff}}
+	case "types.HHmm", "*types.HHmm":
+		return [][]byte{{0x24, 0x30}, {0x25, 0x00}, {0x1a, 0x00}, {0x10, 0x60}}
+	case "types.Date", "*types.Date":
+		return [][]byte{{0x20, 0x23, 0x02, 0x30}, {0x2a, 0x24, 0x01, 0x01}, {0x20, 0x24, 0x13, 0x01}}
+	case "types.DateTime", "*types.DateTime":
+		return [][]byte{{0x20, 0x23, 0x02, 0x30, 0x12, 0, 0}, {0x20, 0x24, 0x01, 0x01, 0x24, 0, 0}, {0x20, 0x24, 0x01, 0x01, 0x12, 0x6a, 0}}
+	case "types.SystemDate":
+		return [][]byte{{0x24, 0x13, 0x01}, {0x2a, 0x01, 0x01}}
+	case "types.SystemTime":
+		return [][]byte{{0x24, 0, 0}, {0x12, 0xa0, 0}}
+	case "uint8", "byte":
+		return [][]byte{{0xff}, {0x07}}
+	}
+	ff := make([]byte, width)
+	for i := range ff {
+		ff[i] = 0xff
+	}
+	return [][]byte{ff}
 }
